@@ -3,7 +3,7 @@ NEXT Next
 CHECK_DEADLOCK FALSE
 CONSTANT PairQ2 <- PairQ2Quick
 CONSTANT TricQuats <- TricQuatsQuick
-CONSTANT NTric = 12
+CONSTANT NTric = 8
 INVARIANT RotationsAreRotations
 INVARIANT CountLemma
 INVARIANT RotationLaw
